@@ -302,3 +302,13 @@ def _default_rng(args, kwargs, st, eng):
     if isinstance(seed, VNone):
         return AbsRng(z3.Int(uid("os_entropy")))
     return AbsRng(_e.to_int(seed))
+
+
+@lib("torch.full")
+def _full(args, kwargs, st, eng):
+    size = eng.deref(kwargs.get("size", args[0] if args else None), st)
+    v = eng.deref(kwargs.get("fill_value", args[1] if len(args) > 1 else None), st)
+    n = _e.to_int(size.elems[0]) if isinstance(size, VTuple) else _e.to_int(size)
+    r = VSeq(z3.If(n >= 0, n, 0), lambda i, v=v: v, typeof(v))
+    r.kind = z3.IntVal(1)
+    return st.alloc(r)
